@@ -1,7 +1,7 @@
 """C02 - annotations reach exactly the ancestors; records stay direct (clauses: KIND, PAIR, DOM/SELECT early exit, PHASE record lists; WIT thorough)"""
 import re
 from engines import kind_elements, kind_of_callee, MutSummary, positive_edges, bool_polarity
-from engines import check_required_steps
+from engines import check_required_steps, receiver_calls
 from engines import check_complete_iteration
 from prov import Prov, params_of, field_names
 from props import codec
@@ -33,6 +33,159 @@ def k1_table(prog):
     out += [("Omim", "annotations::omim_disease::<impl std::iter::Iterator for annotations::disease::DiseaseIterator<'a, annotations::omim_disease::OmimDiseaseId>>::next", True)]
     out += [("Orpha", "annotations::orpha_disease::<impl std::iter::Iterator for annotations::disease::DiseaseIterator<'a, annotations::orpha_disease::OrphaDiseaseId>>::next", True)]
     return out
+
+
+
+
+def record_helper(prog, pv, pvn, b, plural):
+    """a call in `b` of a private, loop-free helper H that receives `&mut self.<plural>` and does  <H's map param>.entry(<key param>) .. .add_term(<term param>):
+    {"site": (bb, call), "helper": H, "key"/"term": parameters of b that reach H's key / term parameter, "map": Builder fields that reach the map parameter,
+    "creates": the helper creates a missing record (entry + or_insert_with / or_insert / or_default)}"""
+    for bi, t in b.calls():
+        hb = prog.bodies.get(t.callee.res or "")
+        if hb is None or hb.kind not in ("Fn", "AssocFn") or hb.exported or hb.reachable or hb.impl_trait or hb.natural_loops():
+            continue
+        if not any(plural in field_names(pvn.of_operand(b, a), "Builder") for a in t.args):
+            continue
+        at = [(hbi, ht) for hbi, ht in hb.calls() if ht.callee.method == "add_term" and len(ht.args) == 2]
+        if len(at) != 1:
+            continue
+        ht = at[0][1]
+        chain = receiver_calls(hb, pvn, ht.args[0])
+        lk = [c for c in chain if c.callee.method in ("entry", "get_mut", "get") and "HashMap" in ((c.callee.def_args or "") + (c.callee.name or "")) and len(c.args) >= 2]
+        if not lk:
+            continue
+        def back(ps):
+            out = set()
+            for p_ in ps:
+                if 1 <= p_ <= len(t.args):
+                    out |= params_of(pvn.of_operand(b, t.args[p_ - 1]), b.id)
+            return out
+        mp = params_of(pvn.of_operand(hb, lk[-1].args[0]), hb.id)
+        fields = set()
+        for p_ in mp:
+            if 1 <= p_ <= len(t.args):
+                fields |= field_names(pvn.of_operand(b, t.args[p_ - 1]), "Builder")
+        return {"site": (bi, t), "helper": hb, "key": back(params_of(pvn.of_operand(hb, lk[-1].args[1]), hb.id)), "term": back(params_of(pvn.of_operand(hb, ht.args[1]), hb.id)),
+                "map": fields, "creates": lk[-1].callee.method == "entry" and any(c.callee.method in ("or_insert_with", "or_insert", "or_default", "or_insert_with_key") for c in chain)}
+    return None
+
+def link_delegate(prog, pv, pvn, lb, add_id):
+    """lb = link_K_term without a direct add_K call.  Recognises  `H(self, term_id, <closure | &closure>)`  where the closure (built in lb)
+    calls add_K(<its parameter>, <lb's record id parameter>); returns (H body, term param of H, callable param of H, the calls of the callable
+    in H, step_ok, step description) or None"""
+    cands = []
+    for bi, t in lb.calls():
+        hb = prog.bodies.get(t.callee.res or "")
+        if hb is None or hb.kind not in ("Fn", "AssocFn") or hb.id == lb.id:
+            continue
+        term_p = [i + 1 for i, a in enumerate(t.args) if params_of(pvn.of_operand(lb, a), lb.id) == {2}]
+        clos = [(i + 1, pv.closure_of_operand(lb, a)) for i, a in enumerate(t.args) if pv.closure_of_operand(lb, a)]
+        if len(term_p) == 1 and len(clos) == 1:
+            cands.append((hb, term_p[0], clos[0][0], clos[0][1]))
+    if len(cands) != 1:
+        return None
+    hb, term_p, f_p, cid = cands[0]
+    cb = prog.bodies.get(cid)
+    if cb is None:
+        return None
+    inner = [(bi, t) for bi, t in cb.calls() if t.callee.res == add_id]
+    others = [(bi, t) for bi, t in cb.calls() if t.callee.res != add_id and (t.callee.res or "") in prog.bodies]
+    if len(inner) != 1 or others or cb.natural_loops():
+        return None
+    ct = inner[0][1]
+    # the closure's own parameter (local 2) is the term, the captured value is lb's record id (param 3); the closure returns add_K's flag
+    ta = Prov(prog, inline=False, mutflow=False, bind_closures=False).of_operand(cb, ct.args[0])
+    ia = params_of(pv.of_operand(cb, ct.args[1]), lb.id)
+    term_is_param = params_of(ta, cb.id) == {2}
+    pol, _ = bool_polarity(cb, Prov(prog, inline=False), lambda c: c.res == add_id)
+    step_ok = term_is_param and ia == {3} and pol == 1
+    msg = "`|term| term.%s(%s)`%s" % (add_id.rsplit("::", 1)[-1], "/".join(lb.local_name(x) for x in ia) or "?", "" if pol == 1 else " (flag %s)" % ("negated" if pol == 0 else "not returned as is"))
+    hadds = []
+    for bi, t in hb.calls():
+        if t.callee.res is None and (t.callee.trait or "").rsplit("::", 1)[-1] in ("Fn", "FnMut", "FnOnce") and t.args and params_of(pvn.of_operand(hb, t.args[0]), hb.id) == {f_p}:
+            hadds.append((bi, t))
+    if not hadds:
+        return None
+    return hb, term_p, f_p, hadds, step_ok, msg
+
+
+def link_shape(ck, prog, pv, pvn, stem, K, lb, hb, term_p, id_p, adds, direct):
+    """the propagation shape rules, on `hb` (link_K_term itself, or the shared helper it delegates to).  `id_p` = the parameter of hb
+    that carries the record's identity (the record id; or the step closure), `term_p` = its term-id parameter"""
+    add_term_op = (lambda t: t.args[0]) if direct else (lambda t: t.args[1])
+    add_id_op = (lambda t: t.args[1]) if direct else (lambda t: t.args[0])
+    idname = lambda ps: "/".join(hb.local_name(p) for p in ps) or "?"
+    recs = [(bi, t) for bi, t in hb.calls() if t.callee.res == hb.id]
+    # recursion sites: direct calls, and calls inside a closure handed to an iterator adaptor (for_each / try_for_each / map ...)
+    recsites = [{"bb": bi, "line": t.line, "term": pv.of_operand(hb, t.args[term_p - 1]), "id": params_of(pvn.of_operand(hb, t.args[id_p - 1]), hb.id)} for bi, t in recs]
+    for cb_ in prog.family(hb):
+        if cb_ is hb or cb_.kind != "Closure":
+            continue
+        for cbi, ct_ in cb_.calls():
+            if ct_.callee.res != hb.id:
+                continue
+            for abi_, at2 in hb.calls():
+                if len(at2.args) >= 2 and any(pv.closure_of_operand(hb, a_) == cb_.id for a_ in at2.args[1:]):
+                    recsites.append({"bb": abi_, "line": at2.line, "term": pv.of_operand(hb, at2.args[0]), "id": params_of(pv.of_operand(cb_, ct_.args[id_p - 1]), hb.id)})
+    if not recsites:
+        # iterative (work-list) form: the `already present` edge may end the visit of THAT term only - it must stay inside the loop;
+        # the `was new` side must feed the term's ancestors (direct parents or the closure) back into the work list
+        abi0, at0 = adds[0]
+        lp = hb.loop_of(abi0)
+        if lp is None:
+            ck.ob("DOM", "link_%s_term/propagation" % stem, False, "link_%s_term neither recurses nor loops: the %s never reaches the ancestors" % (stem, K), where=hb.where())
+            return
+        header, blocks = lp
+        pos_e = positive_edges(hb, pvn, abi0)
+        ok_neg = True
+        line = at0.line
+        for (sbi, tg) in pos_e:
+            x = hb.blocks[sbi].term
+            for o in x.successors():
+                if o == tg:
+                    continue
+                # from the `already present` target: can a return be reached without coming back to the loop header?
+                seen, st = set(), [o]
+                while st:
+                    y = st.pop()
+                    if y in seen or y == header:
+                        continue
+                    seen.add(y)
+                    if hb.blocks[y].term.k == "return":
+                        ok_neg = False
+                    st.extend(hb.succ[y])
+        ck.ob("DOM", "link_%s_term/propagation" % stem, ok_neg, "link_%s_term (work-list form) %s" % (stem, "continues with the remaining work when an id was already present" if ok_neg else "RETURNS from the whole walk when one term already carries the id: terms still on the work list are never linked"), where=hb.where(line))
+        fed = set()
+        for bi2, t2 in hb.calls():
+            if bi2 in blocks and t2.callee.method in ("extend", "push", "append", "extend_from_slice", "insert", "push_back") and len(t2.args) > 1:
+                fed |= field_names(pv.of_operand(hb, t2.args[1]), "HpoTermInternal") & {"parents", "all_parents", "children"}
+        ck.ob("DOM", "link_%s_term/over-closure" % stem, bool(fed) and "children" not in fed, "the work list is fed with the term's %s" % (sorted(fed) or "nothing"), where=hb.where())
+        ida = params_of(pvn.of_operand(hb, add_id_op(at0)), hb.id)
+        ck.ob("DOM", "link_%s_term/links" % stem, ida == {id_p}, "link_%s_term adds record `%s` to every visited term" % (stem, idname(ida)), where=hb.where(at0.line))
+        return
+    abi, at_ = adds[0]
+    pos_e = positive_edges(hb, pvn, abi)
+    for rs_ in recsites:
+        rbi = rs_["bb"]
+        neg_only = False
+        for (sbi, tg) in pos_e:
+            x = hb.blocks[sbi].term
+            others = [o for o in x.successors() if o != tg]
+            if any(rbi in hb.region((sbi, o)) for o in others):
+                neg_only = True
+        ck.ob("DOM", "link_%s_term/propagation" % stem, not neg_only, "link_%s_term recurses %s" % (stem, "when the id was newly added (or unconditionally)" if not neg_only else "ONLY when the id was already present: new annotations never reach the ancestors"), where=hb.where(rs_["line"]))
+        # the recursion iterates the closure set of the term, keyed by the same record id
+        fl = field_names(rs_["term"], "HpoTermInternal")
+        ida = rs_["id"]
+        ck.ob("DOM", "link_%s_term/over-closure" % stem, "all_parents" in fl and ida == {id_p}, "the propagation visits %s of the term with the same record id" % ("the closure set (all_parents)" if "all_parents" in fl else sorted(fl & {"parents", "children"}) or "?"), where=hb.where(rs_["line"]))
+    # the linked term is the looked-up term_id
+    key = set()
+    for a in pvn.of_operand(hb, add_term_op(at_)):
+        if a[0] == "call" and a[3] == hb.id and "termarena::Arena::get" in a[1]:
+            key |= params_of(pvn.of_operand(hb, hb.blocks[a[4]].term.args[1]), hb.id)
+    ida = params_of(pvn.of_operand(hb, add_id_op(at_)), hb.id)
+    ck.ob("DOM", "link_%s_term/links" % stem, key == {term_p} and ida == {id_p}, "link_%s_term adds record `%s` to the term looked up by `%s`" % (stem, idname(ida), idname(key)), where=hb.where(at_.line))
 
 
 def run(ck, prog, ctx):
@@ -118,14 +271,25 @@ def run(ck, prog, ctx):
         oks = [pos for pos, s in b.stmts() if s.k == "assign" and s.place.local == 0 and s.rv["k"] == "agg" and s.rv.get("variant") == "Ok"]
         adds = [(bi, t) for bi, t in b.calls() if (t.callee.res or "").endswith("::add_term") and rec.rsplit("::", 1)[-1] in (t.callee.def_args or "") + (t.callee.res or "")]
         links = [(bi, t) for bi, t in b.calls() if t.callee.res == B + "link_%s_term" % stem]
+        # `record the term` written through a private helper  H(&mut self.<plural>, id, .., term_id)  that does `entry(id).or_insert_with(..).add_term(term_id)`
+        via = None
+        if not adds:
+            via = record_helper(prog, pv, pvn, b, plural)
+            if via is not None:
+                adds_h = [via["site"]]
+        if not oks:
+            # tail form: `self.link_K_term(term_id, id)` is the function's value - its Ok is the success
+            oks = [(bi, len(b.blocks[bi].stmts)) for bi, t in links if t.dest is not None and t.dest.is_local() and t.dest.local == 0]
         if not oks:
             ck.undecided("PAIR", "annotate_%s/success" % stem, "success return not recognised", where=b.where())
             continue
-        for what, sites in (("records the term in the %s record" % K, adds), ("propagates to the ancestors (link_%s_term)" % stem, links)):
-            key = "annotate_%s/%s" % (stem, "record" if sites is adds else "propagate")
+        for what, sites in (("records the term in the %s record" % K, adds if via is None else adds_h), ("propagates to the ancestors (link_%s_term)" % stem, links)):
+            key = "annotate_%s/%s" % (stem, "propagate" if sites is links else "record")
             ok = bool(sites) and all(any(b.dominates(bi, pos[0]) for bi, _ in sites) for pos in oks)
             ck.ob("PAIR", key, ok, "annotate_%s %s on every success path" % (stem, what) if ok else "annotate_%s can return Ok without having %s" % (stem, what.replace("records", "recorded").replace("propagates", "propagated")), where=b.where())
         creates = [(bi, t) for bi, t in b.calls() if t.callee.res == B + "add_" + stem] + [(bi, t) for bi, t in b.calls() if t.callee.method in ("entry", "insert") and plural in field_names(pvn.of_operand(b, t.args[0]), "Builder")]
+        if via is not None and via["creates"]:
+            creates = creates + [via["site"]]
         okc = bool(creates) and all(any(b.dominates(bi, pos[0]) for bi, _ in creates) for pos in oks)
         ck.ob("PAIR", "annotate_%s/creates-record" % stem, okc, "annotate_%s %s" % (stem, "creates the %s record (if missing) on every success path" % K if okc else "can succeed without the %s record existing in the ontology: the term would carry a dangling id" % K), where=b.where())
         # argument roles
@@ -136,13 +300,21 @@ def run(ck, prog, ctx):
             ta = params_of(pvn.of_operand(b, t.args[1]), b.id)
             ra = params_of(pvn.of_operand(b, t.args[0]), b.id) - {1}
             fl = field_names(pv.of_operand(b, t.args[0]), "Builder")
+            # the record is the one found (or created) under the key `id` in self.<plural>: the keyed lookup in the receiver chain decides
+            lk = [c for c in receiver_calls(b, pvn, t.args[0]) if c.callee.method in ("entry", "get_mut", "get") and "HashMap" in ((c.callee.def_args or "") + (c.callee.name or "")) and len(c.args) >= 2]
+            if lk:
+                ra = params_of(pvn.of_operand(b, lk[-1].args[1]), b.id)
+                fl = field_names(pv.of_operand(b, lk[-1].args[0]), "Builder")
             ck.ob("PAIR", "annotate_%s/record-args" % stem, ta == {term_p} and ra == {id_p} and plural in fl, "the record looked up by `%s` in self.%s gets term `%s`" % ("/".join(b.local_name(p) for p in ra) or "?", "/".join(sorted(fl & {"genes", "omim_diseases", "orpha_diseases"})) or "?", "/".join(b.local_name(p) for p in ta) or "?"), where=b.where(t.line))
+        if via is not None:
+            ck.ob("PAIR", "annotate_%s/record-args" % stem, via["term"] == {term_p} and via["key"] == {id_p} and plural in via["map"], "the record looked up by `%s` in self.%s gets term `%s` (through %s)" % ("/".join(b.local_name(p) for p in via["key"]) or "?", "/".join(sorted(via["map"])) or "?", "/".join(b.local_name(p) for p in via["term"]) or "?", via["helper"].short), where=b.where(via["site"][1].line))
         for bi, t in links:
             a1 = params_of(pvn.of_operand(b, t.args[1]), b.id)
             a2 = params_of(pvn.of_operand(b, t.args[2]), b.id)
             ck.ob("PAIR", "annotate_%s/propagate-args" % stem, a1 == {term_p} and a2 == {id_p}, "propagation is called with (`%s`, `%s`)" % ("/".join(b.local_name(p) for p in a1), "/".join(b.local_name(p) for p in a2)), where=b.where(t.line))
 
     # ------------------------------------------------------------------ DOM/SELECT: the early exit
+    shape_of = {}
     for K, (stem, plural, rec) in sorted(KINDS.items()):
         ab = prog.body(TI + "add_" + stem)
         if ab is not None:
@@ -157,83 +329,23 @@ def run(ck, prog, ctx):
             ck.undecided("DOM", "link_%s_term/propagation" % stem, "private helper not found")
             continue
         adds = [(bi, t) for bi, t in lb.calls() if t.callee.res == TI + "add_" + stem]
-        recs = [(bi, t) for bi, t in lb.calls() if t.callee.res == lb.id]
-        # recursion sites: direct calls, and calls inside a closure handed to an iterator adaptor (for_each / try_for_each / map ...)
-        recsites = [{"bb": bi, "line": t.line, "term": pv.of_operand(lb, t.args[1]), "id": params_of(pvn.of_operand(lb, t.args[2]), lb.id)} for bi, t in recs]
-        for cb_ in prog.family(lb):
-            if cb_ is lb or cb_.kind != "Closure":
-                continue
-            for cbi, ct_ in cb_.calls():
-                if ct_.callee.res != lb.id:
-                    continue
-                for abi_, at2 in lb.calls():
-                    if len(at2.args) >= 2 and any(pv.closure_of_operand(lb, a_) == cb_.id for a_ in at2.args[1:]):
-                        recsites.append({"bb": abi_, "line": at2.line, "term": pv.of_operand(lb, at2.args[0]), "id": params_of(pv.of_operand(cb_, ct_.args[2]), lb.id)})
-        if not adds:
-            ck.ob("DOM", "link_%s_term/links" % stem, False, "link_%s_term does not link the %s to the term itself" % (stem, K), where=lb.where())
+        if adds:
+            shape_of[stem] = (lb, 2)
+            link_shape(ck, prog, pv, pvn, stem, K, lb, lb, 2, 3, adds, direct=True)
             continue
-        if not recsites:
-            # iterative (work-list) form: the `already present` edge may end the visit of THAT term only - it must stay inside the loop;
-            # the `was new` side must feed the term's ancestors (direct parents or the closure) back into the work list
-            abi0, at0 = adds[0]
-            lp = lb.loop_of(abi0)
-            if lp is None:
-                ck.ob("DOM", "link_%s_term/propagation" % stem, False, "link_%s_term neither recurses nor loops: the %s never reaches the ancestors" % (stem, K), where=lb.where())
-                continue
-            header, blocks = lp
-            pos_e = positive_edges(lb, pvn, abi0)
-            ok_neg = True
-            line = at0.line
-            for (sbi, tg) in pos_e:
-                x = lb.blocks[sbi].term
-                for o in x.successors():
-                    if o == tg:
-                        continue
-                    # from the `already present` target: can a return be reached without coming back to the loop header?
-                    seen, st = set(), [o]
-                    while st:
-                        y = st.pop()
-                        if y in seen or y == header:
-                            continue
-                        seen.add(y)
-                        if lb.blocks[y].term.k == "return":
-                            ok_neg = False
-                        st.extend(lb.succ[y])
-            ck.ob("DOM", "link_%s_term/propagation" % stem, ok_neg, "link_%s_term (work-list form) %s" % (stem, "continues with the remaining work when an id was already present" if ok_neg else "RETURNS from the whole walk when one term already carries the id: terms still on the work list are never linked"), where=lb.where(line))
-            fed = set()
-            for bi2, t2 in lb.calls():
-                if bi2 in blocks and t2.callee.method in ("extend", "push", "append", "extend_from_slice", "insert", "push_back") and len(t2.args) > 1:
-                    fed |= field_names(pv.of_operand(lb, t2.args[1]), "HpoTermInternal") & {"parents", "all_parents", "children"}
-            ck.ob("DOM", "link_%s_term/over-closure" % stem, bool(fed) and "children" not in fed, "the work list is fed with the term's %s" % (sorted(fed) or "nothing"), where=lb.where())
-            key = set()
-            for a in pvn.of_operand(lb, at0.args[0]):
-                if a[0] == "call" and a[3] == lb.id and "termarena::Arena::get" in a[1]:
-                    key |= {1}
-            ida = params_of(pvn.of_operand(lb, at0.args[1]), lb.id)
-            ck.ob("DOM", "link_%s_term/links" % stem, ida == {3}, "link_%s_term adds record `%s` to every visited term" % (stem, "/".join(lb.local_name(p) for p in ida)), where=lb.where(at0.line))
+        # delegated form: link_K_term is a thin caller of ONE private helper H(self, term_id, .., step) where `step` is a closure built here
+        # that performs `term.add_K(id)`: the shape rules are decided on H, with the closure parameter in the role of the record id
+        dg = link_delegate(prog, pv, pvn, lb, TI + "add_" + stem)
+        if dg is None:
+            if (TI + "add_" + stem) in prog.reachable_bodies([lb.id]) - {lb.id}:
+                ck.undecided("DOM", "link_%s_term/links" % stem, "link_%s_term reaches HpoTermInternal::add_%s only through a helper / closure whose shape is not recognised" % (stem, stem), where=lb.where())
+            else:
+                ck.ob("DOM", "link_%s_term/links" % stem, False, "link_%s_term does not link the %s to the term itself" % (stem, K), where=lb.where())
             continue
-        abi, at_ = adds[0]
-        pos_e = positive_edges(lb, pvn, abi)
-        for rs_ in recsites:
-            rbi = rs_["bb"]
-            neg_only = False
-            for (sbi, tg) in pos_e:
-                x = lb.blocks[sbi].term
-                others = [o for o in x.successors() if o != tg]
-                if any(rbi in lb.region((sbi, o)) for o in others):
-                    neg_only = True
-            ck.ob("DOM", "link_%s_term/propagation" % stem, not neg_only, "link_%s_term recurses %s" % (stem, "when the id was newly added (or unconditionally)" if not neg_only else "ONLY when the id was already present: new annotations never reach the ancestors"), where=lb.where(rs_["line"]))
-            # the recursion iterates the closure set of the term, keyed by the same record id
-            fl = field_names(rs_["term"], "HpoTermInternal")
-            ida = rs_["id"]
-            ck.ob("DOM", "link_%s_term/over-closure" % stem, "all_parents" in fl and ida == {3}, "the propagation visits %s of the term with the same record id" % ("the closure set (all_parents)" if "all_parents" in fl else sorted(fl & {"parents", "children"}) or "?"), where=lb.where(rs_["line"]))
-        # the linked term is the looked-up term_id
-        key = set()
-        for a in pvn.of_operand(lb, at_.args[0]):
-            if a[0] == "call" and a[3] == lb.id and "termarena::Arena::get" in a[1]:
-                key |= params_of(pvn.of_operand(lb, lb.blocks[a[4]].term.args[1]), lb.id)
-        ida = params_of(pvn.of_operand(lb, at_.args[1]), lb.id)
-        ck.ob("DOM", "link_%s_term/links" % stem, key == {2} and ida == {3}, "link_%s_term adds record `%s` to the term looked up by `%s`" % (stem, "/".join(lb.local_name(p) for p in ida), "/".join(lb.local_name(p) for p in key)), where=lb.where(at_.line))
+        hb, term_p, id_p, hadds, step_ok, step_msg = dg
+        shape_of[stem] = (hb, term_p)
+        ck.ob("DOM", "link_%s_term/step" % stem, step_ok, "link_%s_term hands %s the step %s" % (stem, hb.short, step_msg), where=lb.where())
+        link_shape(ck, prog, pv, pvn, stem, K, lb, hb, term_p, id_p, hadds, direct=False)
 
     # the term a record is linked to is looked up with the CHECKED accessor: an id that is not a term of this ontology is an error
     # (the byte decoders rely on it: add_K_from_bytes hands over ids read from the input without validating them first)
@@ -242,11 +354,12 @@ def run(ck, prog, ctx):
         lb = prog.body(B + "link_%s_term" % stem)
         if lb is None:
             continue
+        hb_, tp_ = shape_of.get(stem, (lb, 2))
         lk = set()
-        for bi, t in lb.calls():
+        for bi, t in hb_.calls():
             r = t.callee.res or ""
             if r.startswith("ontology::termarena::Arena::") and r.rsplit("::", 1)[-1] in ("get", "get_mut", "get_unchecked", "get_unchecked_mut") and len(t.args) == 2:
-                if params_of(pvn.of_operand(lb, t.args[1]), lb.id) & {2}:
+                if params_of(pvn.of_operand(hb_, t.args[1]), hb_.id) & {tp_}:
                     lk.add(r.rsplit("::", 1)[-1])
         how[stem] = lk
         if not lk:
@@ -294,7 +407,28 @@ def run(ck, prog, ctx):
     for b in prog.production():
         if b.kind in ("Fn", "AssocFn") and b.id not in leaf and calls_leaf(b):
             writers.append(b)
-    stray = [b for b in writers if not allowed.search(b.id)]
+    # a private helper that does the writing for its callers (`add_direct_term(&mut self.omim_diseases, ..)`) is judged by who calls it
+    def lifted(b, depth=3):
+        if allowed.search(b.id):
+            return []
+        if depth and b.kind in ("Fn", "AssocFn") and not (b.exported or b.reachable or b.impl_trait):
+            cs = [cb_ for cb_, _, _ in prog.callers_of(b.id)]
+            roots = []
+            for cb_ in cs:
+                while cb_.kind == "Closure" and prog.bodies.get(cb_.id.rsplit("::{closure", 1)[0]) is not None:
+                    cb_ = prog.bodies[cb_.id.rsplit("::{closure", 1)[0]]
+                roots.append(cb_)
+            if roots:
+                out = []
+                for r_ in roots:
+                    out += lifted(r_, depth - 1)
+                return out
+        return [b]
+    stray = []
+    for b in writers:
+        for x in lifted(b):
+            if x not in stray:
+                stray.append(x)
     for b in stray:
         ck.violation("PHASE", "hpos/writer/" + b.short, "%s writes a record's direct-term list (allowed: annotate_K and the record decoders)" % b.short, where=b.where())
     ck.ob("PHASE", "hpos/writers", not stray, "callers of the record list writers: %s" % sorted(b.short for b in writers))
